@@ -325,6 +325,7 @@ type prover struct {
 	ip         *interproc
 	retB       map[int]ibound
 	callB      map[ssa.CallInstruction][]ibound
+	lenRel     map[ssa.CallInstruction]map[[2]int]ibound // (arg index, param index) → bounds of len(arg) - len(param), slices only
 	obRes      map[ssa.Instruction]*boundOb
 	untracked  map[*ssa.Alloc]bool // locals whose address escapes: never tracked
 	wr         map[*types.Var]bool
@@ -1986,6 +1987,43 @@ func (pv *prover) record(in ssa.Instruction, z *zone) {
 			}
 		}
 		pv.callB[x] = cb
+		// length of a slice argument relative to the length of a slice parameter of this function
+		for i, a := range args {
+			if _, isSl := a.Type().Underlying().(*types.Slice); !isSl {
+				continue
+			}
+			for j, par := range pv.fn.Params {
+				if _, isSl := par.Type().Underlying().(*types.Slice); !isSl {
+					continue
+				}
+				la, loff, ok1 := pv.lenTerm(a)
+				lp, poff, ok2 := pv.lenTerm(par)
+				if !ok1 || !ok2 {
+					continue
+				}
+				z.grow(len(pv.names))
+				r := ibound{set: true}
+				if la == lp {
+					r.lo, r.hi, r.okLo, r.okHi = loff-poff, loff-poff, true, true
+				} else {
+					if d := z.d[la*z.n+lp]; d < zInf { // la - lp <= d
+						r.hi, r.okHi = d+loff-poff, true
+					}
+					if d := z.d[lp*z.n+la]; d < zInf { // lp - la <= d
+						r.lo, r.okLo = -d+loff-poff, true
+					}
+				}
+				if pv.lenRel == nil {
+					pv.lenRel = map[ssa.CallInstruction]map[[2]int]ibound{}
+				}
+				if pv.lenRel[x] == nil {
+					pv.lenRel[x] = map[[2]int]ibound{}
+				}
+				cur := pv.lenRel[x][[2]int{i, j}]
+				cur.join(r)
+				pv.lenRel[x][[2]int{i, j}] = cur
+			}
+		}
 		if _, isVal := in.(ssa.Value); !isVal {
 			return
 		}
@@ -2509,4 +2547,19 @@ func (pv *prover) termStable(v ssa.Value) (string, bool) {
 		}
 	}
 	return "", false
+}
+
+// lenRelAtCall: bounds of len(args[argIdx]) - len(params[parIdx]) at the call, over every abstract state that
+// reaches it (okLo/okHi false: unbounded on that side; set false: the call is never reached).
+func (ip *interproc) lenRelAtCall(fn *ssa.Function, call ssa.CallInstruction, argIdx, parIdx int) ibound {
+	pv := ip.analyse(fn)
+	if pv == nil || pv.incomplete {
+		return ibound{}
+	}
+	if m, ok := pv.lenRel[call]; ok {
+		if r, ok := m[[2]int{argIdx, parIdx}]; ok {
+			return r
+		}
+	}
+	return ibound{}
 }
